@@ -1,6 +1,7 @@
 import DFV.JsonField
 import DFV.Model.C09
 import DFV.Model.C09Lex
+import DFV.Model.C09Csv
 namespace DFV.Drv
 open Lean DFV DFV.C09
 
@@ -118,8 +119,56 @@ def textBodyOfJson (j : Json) : R (List (List Rat) × List String) :=
       pure (rows, footer)
   | none => pure ([], [])
 
+/-- the text of payload numbers: Python's / numpy's own results as a table `[[text, rational], ...]` for
+everything that is not a plain short decimal; the model's `fmtDec` / `parseDec` for the rest -/
+def textIOOfJson (j : Json) : R (TextIO Rat) := do
+  let tab ← match fldOpt j "texts" with
+    | some t => listOf (fun e => do
+        let a ← arr e
+        match a.toList with
+        | [t, q] => pure ((← strOfJson t), (← ratOfJson q))
+        | _ => throw "bad texts entry") t
+    | none => pure []
+  pure { fmt := fun q => match tab.find? fun p => p.2 == q with
+                  | some p => p.1.toList
+                  | none => fmtDec q,
+         pfloat := fun cs => match tab.find? fun p => p.1.toList == cs with
+                  | some p => some p.2
+                  | none => parseDec cs }
+
 def c09 (op : String) (j : Json) : Option (R Json) :=
   match op with
+  | "writebytest" => some do
+      let f ← ofieldOfJson (← fld j "field")
+      let rep ← strOfJson (← fld j "rep")
+      let extend ← boolOfJson (← fld j "extend")
+      let N ← numIOOfJson j
+      let T ← textIOOfJson j
+      pure (resJ natsJ (toOvfBytesT N T ieee f rep extend))
+  | "readbytest" => some do
+      let bytes ← listOf natOfJson (← fld j "bytes")
+      let N ← numIOOfJson j
+      let T ← textIOOfJson j
+      let side ← sideOfJson j
+      let reserved ← match fldOpt j "reserved" with
+        | some r => listOf strOfJson r
+        | none => pure []
+      pure (resJ ofieldToJson (fromOvfBytesT N T ieee isWordC (fun s => reserved.contains s) bytes side))
+  | "refwritebytes" => some do
+      let x ← contentOfJson (← fld j "content")
+      let v2 ← boolOfJson (← fld j "v2")
+      let w ← natOfJson (← fld j "w")
+      let N ← numIOOfJson j
+      let T ← textIOOfJson j
+      pure (Json.mkObj [("ok", natsJ (fileBytesT N T (refWriter ieee v2 w x)))])
+  | "dec" => some do
+      let vals ← rats j "vals"
+      let texts ← listOf strOfJson (← fld j "texts")
+      pure (Json.mkObj [("fmt", strsJ (vals.map fun x => String.ofList (fmtDec x))),
+        ("short", Json.arr ((vals.map fun x => Json.bool (decide (ShortDec x))).toArray)),
+        ("parse", Json.arr ((texts.map fun t => match parseDec t.toList with
+            | some q => ratToJson q
+            | none => Json.null).toArray))])
   | "write" => some do
       let f ← ofieldOfJson (← fld j "field")
       let rep ← strOfJson (← fld j "rep")
